@@ -164,9 +164,13 @@ func GetSignalCells(
 	// Pos is the position within the bitstream.
 	pos := startOfSignalCells
 
-	// Find the number of signal cells, ignoring any padding.
+	// The cell mask in the header gives the number of signal cells.  The
+	// bit stream must be long enough to hold them.  (The cells may be
+	// followed by padding and the CRC, and a cell may be all zeros, so the
+	// number can't be found by examining the trailing bits.)
 
-	numSignalCells := utils.GetNumberOfSignalCells(bitStream, pos, bitsPerCell)
+	numSignalCells := header.NumSignalCells
+	cellsThatFit := int(bitsLeftInFrame / bitsPerCell)
 
 	if header.MultipleMessage {
 		// The message doesn't contain all the signal cells but there should be
@@ -176,12 +180,15 @@ func GetSignalCells(
 				bitsPerCell, bitsLeftInMessage)
 			return nil, errors.New(message)
 		}
+		if cellsThatFit < numSignalCells {
+			numSignalCells = cellsThatFit
+		}
 	} else {
 		// This message should contain all the signal cells.  Check that
 		// there are the expected number.
-		if numSignalCells < header.NumSignalCells {
+		if cellsThatFit < header.NumSignalCells {
 			message := fmt.Sprintf("overrun - want %d MSM4 signals, got %d",
-				header.NumSignalCells, numSignalCells)
+				header.NumSignalCells, cellsThatFit)
 			return nil, errors.New(message)
 		}
 	}
